@@ -1456,6 +1456,8 @@ mod e2e {
 
     use super::*;
 
+    pub const CL_CNAME: &str = "cname-answer-rejected-because-of-attached-qname-nsec3";
+
     #[derive(Clone, Default)]
     struct Capture(Arc<Mutex<Vec<u8>>>);
 
@@ -1707,7 +1709,17 @@ mod e2e {
                     q,
                     t,
                     format!("completeness: DnssecDnsHandle rejects the server's plain positive answer for {q} type {t} ({} NSEC3 attached): {e} — zone {}", nsec3s.len(), describe_spec(z)),
-                    "",
+                    // narrow class from the input: the answer is a CNAME RRset at QNAME for another QTYPE
+                    // (the caller's exemption of /repo a0f75fc covers RRsets of the query type only)
+                    if t != T_CNAME
+                        && !nsec3s.is_empty()
+                        && resp.answers.iter().any(|rr| rr.name == *q && rr.record_type() == RecordType::CNAME)
+                        && !resp.answers.iter().any(|rr| rr.name == *q && u16::from(rr.record_type()) == t)
+                    {
+                        CL_CNAME
+                    } else {
+                        ""
+                    },
                 );
             }
         }
